@@ -9,24 +9,12 @@ COMMON_NOTE = ("Trusted base: Coq 8.16.1 kernel (vm_compute used only for concre
                "extraction with ExtrOcamlBasic only; ocaml/driver.ml, tools/*.py, the C++ harness; g++/libstdc++/Boost. "
                "Axioms per theorem are listed from Print Assumptions in the evidence file. ")
 
-CHECKS = {
- "C17": dict(text="Coq theorem C17_histories_refine_dense: for every history of SpVecGF2 operations the model's store is strictly increasing and equals the dense GF(2) computation (membership, dot products, size). Tied to spvecgf2.hpp by exact differential runs of random histories on the real class and the extracted model.",
-             note="Model covers U = std::size_t. A moved-from vector is never read before reassignment (unspecified in the dense semantics).",
-             tech="Coq proof (refinement to dense vectors by induction over histories) + differential correspondence"),
- "C18": dict(text="Coq theorems C18_ext_gcd (g = gcd >= 0 and a*x+b*y = g for all (a,b) != (0,0), fuel never exhausted), C18_mult_inverse, C18_is_prime (<-> Znumtheory.prime for p >= 2), C18_spvecfp (histories refine dense vectors over Z/p, entries in 1..p-1, increasing indices, any integer scalar) about a model that follows fp.hpp / spvecfp.hpp statement by statement; the pre-fix source is kept as ext_gcd_orig / is_prime_orig with _refuted theorems (defects D1, D2, repaired by fix: commits). Tied by exact comparison for long long and cpp_int.",
-             note="Theorems are over unbounded Z; for built-in types the no-overflow side condition (|a|,|b|,p,|scalar| < 2^31 for long long) is an assumption and the generators respect it. long-long is_prime uses a double sqrt (exact below 2^52).",
-             tech="Coq proof (loop invariant + logarithmic fuel; trial division vs Znumtheory.prime; refinement over histories) + differential correspondence"),
-}
-
-CHECKS["C16"] = dict(text="Coq theorem C16: for every simple graph (incl. empty, edgeless, forests, many components) and every BFS root order, the ForestIndex model never fails, both lookups are inverse bijections onto 0..m-1, k is the number of connected components (n_components), csd + n = m + k, is_on_forest <-> index >= csd, and the on-forest edges form a spanning forest (acyclic in the even-subset sense, connecting whatever g connects). Tied by exact comparison of all lookups/flags and of spanning_forest's emission under the recovered root order.",
-             note="Root order of std::unordered_set is an oracle (universally quantified; recovered from the run). Boost iteration orders assumed as stated in DESIGN.md §6.",
-             tech="Coq proof (BFS invariant, pendant-edge acyclicity, counting) + differential correspondence with recovered oracle")
-CHECKS["C13"] = dict(text="Coq theorems C13_fvs / C13_forest / C13_no_fuel_error / C13_complete_run_exists: for every simple graph and every resolution of the heap's choices, a complete run of the greedy_fvs model emits distinct vertices of the graph whose removal leaves no non-empty even-degree edge subset (no cycle); forests emit nothing; the degree bookkeeping (incl. vertices queued twice for removal) is the proved invariant. Tied by acceptance: the implementation's emitted sequence is replayed as the oracle and must be accepted as a complete run.",
-             note="pairing_heap::top abstracted as 'some existing vertex' (oracle). Termination of the real loop is runtime behaviour; the model shows complete runs exist and fuel never runs out.",
-             tech="Coq proof (state invariant + existence-preserving even-subset argument) + acceptance correspondence")
-CHECKS["C15"] = dict(text="Coq theorem C15 (+ C15_stretch, C15_bfs_bounded): for every simple graph, k >= 1 and every weight-sorted scan order the spanner model returns a partition retained/dropped, the spanner is the subgraph of retained edges carrying the input's weights, every dropped edge has a path of <= 2k-1 retained edges none heavier (stretch <= 2k-1), and no simple cycle of <= 2k retained edges exists; is_bfs_reachable = hop distance <= bound. Tied by exact comparison of the spanner exposed through the PARMCB_VERIF accessors under the recovered scan order, and of direct is_bfs_reachable calls. Defect D6a (zero spanner weights) was exhibited by this check and repaired by a fix: commit.",
-             note="std::sort's permutation among equal weights is an oracle (universally quantified; recovered as retained-before-dropped merge, which reproduces the outcome). k = 0 wraps max_hops to SIZE_MAX (modelled as unbounded).",
-             tech="Coq proof (BFS layering invariant, scan-order induction, girth by last-scanned edge) + differential correspondence through guarded accessors")
+# one file per claimed property: tools/manifest.d/Cxx.json = {"text": level text, "note": assumptions, "tech": technique,
+# optional "category" (default proof), "engines": [...]}
+CHECKS = {}
+for _f in sorted(os.listdir(os.path.join(ROOT, "tools", "manifest.d"))):
+    if _f.endswith(".json"):
+        CHECKS[_f[:-5]] = json.load(open(os.path.join(ROOT, "tools", "manifest.d", _f)))
 
 NOT_YET = "check not built yet (work in progress; see DESIGN.md §9)"
 NA = {
@@ -67,7 +55,7 @@ def main():
                 "evidence_file": "evidence/%s.json" % pid,
                 "replay_cmd_template": "python3 tools/check.py %s --replay {path}" % pid,
                 "engine": "coq-model",
-                "level_claimed": {"category": "proof", "text": c["text"], "design_ref": "DESIGN.md §5 " + pid},
+                "level_claimed": {"category": c.get("category", "proof"), "text": c["text"], "design_ref": "DESIGN.md §5 " + pid},
                 "level_note": COMMON_NOTE + c["note"],
                 "technique": c["tech"],
             })
